@@ -1,12 +1,12 @@
-(* Obligation C03/integration_exponential_euler.  Statement as printed by Coq from Inferno.C03.IntegrationProofs; proof by reference.
+(* Obligation C03/integration_exponential_euler.  Statement as printed by Coq from Inferno.C03.EulerProofs; proof by reference.
    This file contains nothing else, so the statement cannot be weakened quietly. *)
 From Coq Require Import List ZArith Bool Reals.
 From Flocq Require Import Core.Raux.
-From Inferno Require Import Base.Num Base.NumR Gen.NeuronDynamics Gen.NeuronAdaptation C03.Neuron C03.NeuronSpec C03.IntegrationProofs.
+From Inferno Require Import Base.Num Base.NumR Gen.NeuronDynamics Gen.NeuronAdaptation C03.Neuron C03.NeuronSpec C03.EulerProofs.
 Import ListNotations.
 Open Scope R_scope.
 Theorem integration_exponential_euler : forall I v dt rest rheo D tau Rm : R,
   voltage_integration_exponential RN I v dt rest rheo D tau Rm =
   v + dt * ((- (v - rest) + D * Rtrigo_def.exp ((v - rheo) / D) + Rm * I) / tau).
-Proof. exact (@Inferno.C03.IntegrationProofs.integration_exponential_euler). Qed.
+Proof. exact (@Inferno.C03.EulerProofs.integration_exponential_euler). Qed.
 Print Assumptions integration_exponential_euler.
